@@ -54,12 +54,13 @@ func (r *objectDeploymentStatusReconciler) Reconcile(
 		meta.RemoveStatusCondition(packageObj.GetConditions(), corev1alpha1.PackagePaused)
 	}
 
-	controllers.DeleteMappedConditions(ctx, packageObj.GetConditions())
+	restoreTransitionTimes := controllers.DeleteMappedConditions(ctx, packageObj.GetConditions())
 	controllers.MapConditions(
 		ctx,
 		objDep.ClientObject().GetGeneration(), *objDep.GetConditions(),
 		packageObj.ClientObject().GetGeneration(), packageObj.GetConditions(),
 	)
+	restoreTransitionTimes()
 
 	packageObj.SetStatusRevision(objDep.GetStatusRevision())
 
